@@ -14,7 +14,7 @@ open SV SV.Dsv
 /-- The doubling shift chain satisfies the prefix-XOR recurrence. -/
 theorem prefix_xor_spec (q : BitVec 64) : Gen.prefix_xor q = q ^^^ (Gen.prefix_xor q <<< 1) := by
   unfold Gen.prefix_xor
-  bv_decide
+  bv_decide (timeout := 300)
 
 /-- The "inside quotes" word of the prefix-XOR tail: prefix XOR folded with the broadcast carry. -/
 def insideP (c q : BitVec 64) : BitVec 64 := Gen.prefix_xor q ^^^ (0#64 - (c &&& 1#64))
@@ -23,12 +23,12 @@ def insideP (c q : BitVec 64) : BitVec 64 := Gen.prefix_xor q ^^^ (0#64 - (c &&&
 theorem insideP_rec (c q : BitVec 64) :
     insideP c q = q ^^^ ((insideP c q <<< 1) ||| (c &&& 1#64)) := by
   unfold insideP Gen.prefix_xor
-  bv_decide
+  bv_decide (timeout := 300)
 
 /-- `next_carry` (count parity) is bit 63 of the inside word — including a quote at bit 63. -/
 theorem next_carry_eq (c q : BitVec 64) : Gen.next_carry c q = insideP c q >>> 63 := by
   unfold Gen.next_carry insideP Gen.prefix_xor popcountBV64
-  bv_decide
+  bv_decide (timeout := 300)
 
 /-- The PDEP-add formula equals the complemented inside word, when the addend is "the quotes that
 open a region" (`q` masked by "previous position is outside"). -/
@@ -37,13 +37,13 @@ theorem deposit_add_eq (c q a : BitVec 64)
     (((a <<< 1) ||| (c &&& 1#64)) + ~~~q) = ~~~ insideP c q := by
   subst ha
   unfold insideP Gen.prefix_xor
-  bv_decide
+  bv_decide (timeout := 300)
 
 theorem and_one_cases (c : BitVec 64) : c &&& 1#64 = 0#64 ∨ c &&& 1#64 = 1#64 := by
-  bv_decide
+  bv_decide (timeout := 300)
 
 theorem and_one_eq (c : BitVec 64) : c &&& 1#64 = if c.getLsbD 0 then 1#64 else 0#64 := by
-  cases h : c.getLsbD 0 <;> simp only [if_true, if_false, Bool.false_eq_true] <;> bv_decide
+  cases h : c.getLsbD 0 <;> simp only [if_true, if_false, Bool.false_eq_true] <;> bv_decide (timeout := 300)
 
 /-! ### bit-serial reading of the inside word -/
 
@@ -257,6 +257,6 @@ theorem togglePrefix_snd (c q : BitVec 64) :
   have : (togglePrefix c q).2 = Gen.next_carry c q := rfl
   rw [this, next_carry_eq, ← insideP_getLsbD c q 63 (by omega)]
   generalize insideP c q = x
-  cases h : x.getLsbD 63 <;> simp only [if_true, if_false, Bool.false_eq_true] <;> bv_decide
+  cases h : x.getLsbD 63 <;> simp only [if_true, if_false, Bool.false_eq_true] <;> bv_decide (timeout := 300)
 
 end SV.DsvK
